@@ -10,6 +10,7 @@ import (
 	"os"
 	"path/filepath"
 	"sync"
+	"sync/atomic"
 	"time"
 
 	"go.uber.org/zap"
@@ -38,7 +39,7 @@ type WALFileType struct {
 	ReplicationSender ReplicationSender // send messages to replica servers
 	WALBypass         bool              // TODO: refactor: unexport this param
 	BackgroundSync    bool              // TODO: refactor: unexport this param
-	shutdownPending   *bool
+	shutdownPending   *int32 // 1 once Shutdown was requested; accessed atomically (Shutdown vs. SyncWAL goroutine)
 	walWaitGroup      *sync.WaitGroup
 	tpd               *TriggerPluginDispatcher
 	txnPipe           *TransactionPipe
@@ -67,7 +68,7 @@ func NewWALFile(rootDir string, owningInstanceID int64, rs ReplicationSender,
 	walBypass bool, walWaitGroup *sync.WaitGroup, tpd *TriggerPluginDispatcher,
 	txnPipe *TransactionPipe,
 ) (wf *WALFileType, err error) {
-	shutdownPending := false
+	shutdownPending := int32(0)
 	wf = &WALFileType{
 		lastCommittedTGID: 0,
 		OwningInstanceID:  owningInstanceID,
@@ -722,7 +723,8 @@ func sanityCheckValue(fp *os.File, value int64) (isSane bool) {
 	return value < sanityLen
 }
 
-var haveWALWriter = false
+// haveWALWriter is 1 while the SyncWAL goroutine runs; accessed atomically (writers vs. SyncWAL goroutine).
+var haveWALWriter int32
 
 func (wf *WALFileType) SyncWAL(walRefresh, primaryRefresh time.Duration, walRotateInterval int) {
 	/*
@@ -732,7 +734,7 @@ func (wf *WALFileType) SyncWAL(walRefresh, primaryRefresh time.Duration, walRota
 		numTickerCheckPerWALRefresh = 100
 		writeChannelCapThreshold    = 0.8
 	)
-	haveWALWriter = true
+	atomic.StoreInt32(&haveWALWriter, 1)
 	tickerWAL := time.NewTicker(walRefresh)
 	tickerPrimary := time.NewTicker(primaryRefresh)
 	tickerCheck := time.NewTicker(walRefresh / numTickerCheckPerWALRefresh)
@@ -740,7 +742,7 @@ func (wf *WALFileType) SyncWAL(walRefresh, primaryRefresh time.Duration, walRota
 
 	chanCap := cap(wf.txnPipe.writeChannel)
 	for {
-		if !*wf.shutdownPending {
+		if atomic.LoadInt32(wf.shutdownPending) == 0 {
 			select {
 			case <-tickerWAL.C:
 				if err := wf.FlushToWAL(); err != nil {
@@ -775,7 +777,7 @@ func (wf *WALFileType) SyncWAL(walRefresh, primaryRefresh time.Duration, walRota
 				}
 			}
 		} else {
-			haveWALWriter = false
+			atomic.StoreInt32(&haveWALWriter, 0)
 			log.Info("Flushing to WAL...")
 			err := wf.FlushToWAL()
 			if err != nil {
@@ -800,7 +802,7 @@ func (wf *WALFileType) SyncWAL(walRefresh, primaryRefresh time.Duration, walRota
 // is already queued would acknowledge writes that are not yet durable nor
 // visible; a flush that finds nothing to write is cheap.)
 func (wf *WALFileType) RequestFlush() {
-	if !haveWALWriter {
+	if atomic.LoadInt32(&haveWALWriter) == 0 {
 		if err := wf.FlushToWAL(); err != nil {
 			log.Error("failed to flush WAL", zap.Error(err))
 		}
@@ -812,7 +814,7 @@ func (wf *WALFileType) RequestFlush() {
 }
 
 func (wf *WALFileType) Shutdown() {
-	*wf.shutdownPending = true
+	atomic.StoreInt32(wf.shutdownPending, 1)
 	wf.walWaitGroup.Wait()
 	wf.finishAndWait()
 }
